@@ -13,10 +13,20 @@ GOENV = dict(os.environ, GOFLAGS="-mod=mod", GOPROXY="off", GOSUMDB="off", GOTOO
              CGO_ENABLED=os.environ.get("CGO_ENABLED", "1"))
 NCPU = os.cpu_count() or 4
 
+import threading
 _scratch = None
 
 
+_scratch_lock = threading.Lock()
+
+
 def scratch():
+    global _scratch
+    with _scratch_lock:          # (called from the harness' worker threads as well: one directory per check process, not one per thread)
+        return _scratch_locked()
+
+
+def _scratch_locked():
     global _scratch
     if _scratch is None:
         base = "/var/tmp"
@@ -31,7 +41,7 @@ def scratch():
             pass
         _scratch = tempfile.mkdtemp(prefix="dtverif.", dir=base)
         import atexit
-        atexit.register(lambda: shutil.rmtree(_scratch, ignore_errors=True))
+        atexit.register(shutil.rmtree, _scratch, True)
     return _scratch
 
 
